@@ -138,6 +138,7 @@ func merge(st []byte, a inc, c cfg) ([]byte, error) {
 func main() {
 	flag.Parse()
 	r := ev.Start("C02")
+	defer r.RecoverMain()
 	defer world.Cleanup()
 	r.Assume("versions over ts{0,1,2,2^63,2^64-1} x value{\"\",a,b} x deleted/live, entry flags 0..3, stored values with an extension block / unknown flag bits",
 		"deleted entries that carry a value (not well-formed: deleted implies empty) are checked in single merges only, not in the order relations",
